@@ -1095,7 +1095,8 @@ class World:
 
     def gen_pg_rm(self, rng, h):
         t = self._pg_target(rng, h)
-        return None if t is None else {"t": t, "which": rng.randrange(8)}
+        # "many": several entries in one call, members and non-members of the group in any order
+        return None if t is None else {"t": t, "which": rng.randrange(8), "many": rng.getrandbits(12) if rng.random() < 0.4 else 0}
 
     def do_pg_rm(self, op):
         h = op["h"]
@@ -1112,11 +1113,22 @@ class World:
         live_pg = [p for p in (obj.property_groups or []) if ustr(p.uid) == pg_uid]
         if not live_pg:
             raise Violation("C01", "live_mismatch", f"property group {pg_uid} missing on live object", {"where": "pg_rm"})
-        _, outcome = self.call(lambda: live_pg[0].remove_properties(uid_obj(data_uid)), what="pg_rm")
+        targets = [data_uid]
+        if op.get("many"):
+            bits = op["many"]
+            others = [c for c in model.recs[owner]["children"] if model.recs[c]["kind"] == "data" and c != data_uid]
+            picked = [c for i, c in enumerate(sorted(others)) if (bits >> i) & 1][:3]
+            targets = picked[:1] + [data_uid] + picked[1:] if (bits >> 11) & 1 else [data_uid] + picked
+            if len(targets) > 1:
+                self.sim.probe("pg_rm_many")
+                if targets[-1] not in pg["props"]:
+                    self.sim.probe("pg_rm_many_last_not_member")
+        arg = uid_obj(data_uid) if len(targets) == 1 else [uid_obj(t) for t in targets]
+        _, outcome = self.call(lambda: live_pg[0].remove_properties(arg), what="pg_rm")
         del obj, live_pg
         if outcome != "ok":
             return outcome
-        pg["props"] = [p for p in pg["props"] if p != data_uid]
+        pg["props"] = [p for p in pg["props"] if p not in targets]
         if not pg["props"]:
             del model.recs[owner]["pgs"][pg_uid]
             model.removed.add(pg_uid)
